@@ -40,6 +40,17 @@ CLAIMS = {
             "the forbidden construct is present; section / metadata_entry / check_alias / check_note / comp_body emit at most one "
             "diagnostic of the documented severity; all diagnostics queued by component parsers are Error/Warning events "
             "(only_diags); every primary label satisfies Span::ok. Analysis diagnostics and the short-circuit are not decided.", VERUS),
+    "C08": ("proof", "Partial (value level). Contracts on the real linear_scale, ScalableValue::{scale,default_scale} and "
+            "ScalableQuantity::{scale,default_scale}: a locked value is returned verbatim with outcome Fixed for every factor; a "
+            "scalable number/range is replaced end-wise by the f64 product of its value and the factor (the product is an "
+            "uninterpreted float relation: the contract pins which operands are multiplied, not the rounded result), outcome Scaled; "
+            "text is unchanged with outcome Error; default scaling returns the written value; the unit is kept. Recipe-level "
+            "iteration, fitting, servings are not decided.", VERUS),
+    "C10": ("proof", "Partial (value level). Contracts on the real Value::try_add and GroupedValue::{add,merge,..}: text never takes "
+            "part in a sum and is kept verbatim in insertion order; numbers and ranges are folded end-wise into the single numeric "
+            "slot (sum as an uninterpreted f64 relation over the right operands); the `expect` in add cannot fire; the "
+            "representation invariant (at most one numeric value, first) is preserved. GroupedQuantity, ingredient lists and "
+            "aisle categorisation are not decided.", VERUS),
     "C11": ("proof", "Partial. The span computation of aisle::parse (calc_span closure, lifted mechanically) never asserts and returns "
             "exactly the sub-slice's offsets for every sub-slice of the input (Kani, loop-free, pointer-level). Duplicate detection, "
             "writer round trip and lookup are not decided (std string pattern APIs are out of both tools' reach).", KANI),
@@ -58,9 +69,7 @@ CLAIMS = {
 NA_REASON = {
     "C01": "needs a functional specification of the whole language plus a printer that is not in the repository; the local facts it rests on are claimed under C04/C05/C02 (DESIGN.md §6)",
     "C06": "the analysis pass (event_consumer.rs) is outside both tools as written: closures capturing &mut self, OnceCell, unicase, rposition/nth_back, serde_yaml; Kani runs out of memory on it (DESIGN.md §6)",
-    "C08": "units not landed yet (linear_scale / ScalableValue::scale under Verus float relations); see DESIGN.md §6",
     "C09": "floating-point tolerance claims over HashMap/EnumMap/Arc data; Verus has no float theory, CBMC times out (DESIGN.md §6)",
-    "C10": "units not landed yet (GroupedValue / Value::try_add); see DESIGN.md §6",
     "C14": "relational property over two Peekable-based scanners plus the analysis pass; out of reach (DESIGN.md §6)",
     "C15": "behaviour lives in serde derive output and serde_json; not contractable here (DESIGN.md §6)",
     "C16": "ConverterBuilder is HashMap/EnumMap/Arc/closure code; both tools fail on it (DESIGN.md §6)",
